@@ -73,11 +73,55 @@ fn diff_obs(a: &Observation, b: &Observation) -> String {
     "observation differs".into()
 }
 
+/// start forests with runs of adjacent (and empty) text nodes, as left behind by work done
+/// while text consolidation was off; consolidation is ON again when the history starts
+fn adjacent_start(src: &mut Src, small: bool, max_nodes: usize) -> Vec<crate::model::ANode> {
+    use crate::model::{AElem, ANode, QName};
+    let t = |s: &str| ANode::Text(s.to_string());
+    let el = |n: &str, ch: Vec<ANode>| ANode::Element(AElem { name: QName::new("", n), decls: vec![], attrs: vec![], children: ch });
+    if small {
+        let tree = match src.choice(5) {
+            0 => el("a", vec![t("x"), t("c"), t("y")]),
+            1 => el("a", vec![el("b", vec![]), t("x"), t("c"), t("y")]),
+            2 => el("a", vec![t("x"), t("c"), t("y"), el("b", vec![])]),
+            3 => el("a", vec![el("b", vec![t("x"), t("")]), t("y"), t("z")]),
+            _ => el("a", vec![t("x"), t("y"), ANode::Comment("c".into()), t(""), t("z")]),
+        };
+        return vec![ANode::Document(vec![tree]), t("w")];
+    }
+    let mut forest = hist::gen_start_forest(src, false, max_nodes);
+    fn inject(n: &mut ANode, src: &mut Src) {
+        if let Some(ch) = n.children_mut() {
+            for c in ch.iter_mut() {
+                inject(c, src);
+            }
+        }
+        if let ANode::Element(e) = n {
+            if src.ratio(1, 2) {
+                let at = src.choice(e.children.len() + 1);
+                let run = 2 + src.choice(3);
+                for k in 0..run {
+                    let s = ["x", "", "y", " "][src.choice(4)];
+                    e.children.insert(at + k, ANode::Text(s.to_string()));
+                }
+            }
+        }
+    }
+    for tr in forest.iter_mut() {
+        inject(tr, src);
+    }
+    forest
+}
+
 fn run(mode: Mode, src: &mut Src, ctx: &mut Ctx) -> Verdict {
     let small = ctx.knobs.small;
     let mut xot = Xot::new();
     let mut known = Handles::default();
-    let start = hist::gen_start_forest(src, small, ctx.knobs.max_nodes.max(3));
+    let start = if ctx.knobs.variant == 1 {
+        adjacent_start(src, small, ctx.knobs.max_nodes.max(3))
+    } else {
+        hist::gen_start_forest(src, small, ctx.knobs.max_nodes.max(3))
+    };
     let mut log: Vec<String> = vec![];
     for t in &start {
         let mut hs = vec![];
@@ -415,6 +459,29 @@ fn plans(tier: Tier, quick_cases: usize, thorough_cases: usize) -> Vec<Plan> {
                     ..Default::default()
                 },
             },
+            Plan {
+                name: "small-adjacent",
+                kind: PlanKind::Enumerate { limit: 3_000_000 },
+                knobs: Knobs {
+                    max_nodes: 4,
+                    max_ops: 1,
+                    small: true,
+                    variant: 1,
+                },
+            },
+            Plan {
+                name: "hist-adjacent",
+                kind: PlanKind::Random {
+                    cases: quick_cases / 4,
+                    max_len: 400,
+                },
+                knobs: Knobs {
+                    max_nodes: 10,
+                    max_ops: 30,
+                    variant: 1,
+                    ..Default::default()
+                },
+            },
         ],
         Tier::Thorough => vec![
             Plan {
@@ -461,6 +528,29 @@ fn plans(tier: Tier, quick_cases: usize, thorough_cases: usize) -> Vec<Plan> {
                     ..Default::default()
                 },
             },
+            Plan {
+                name: "small-adjacent",
+                kind: PlanKind::Enumerate { limit: 3_000_000 },
+                knobs: Knobs {
+                    max_nodes: 4,
+                    max_ops: 1,
+                    small: true,
+                    variant: 1,
+                },
+            },
+            Plan {
+                name: "hist-adjacent",
+                kind: PlanKind::Random {
+                    cases: thorough_cases / 4,
+                    max_len: 400,
+                },
+                knobs: Knobs {
+                    max_nodes: 10,
+                    max_ops: 30,
+                    variant: 1,
+                    ..Default::default()
+                },
+            },
         ],
     }
 }
@@ -470,7 +560,7 @@ impl Property for C04 {
         "C04"
     }
     fn rule(&self) -> &'static str {
-        "case = start forest (documents, fragments, unattached elements, free attribute/namespace/text nodes in one Xot) + history of calls drawn from the whole mutating API with operands = any live node of any kind; after every step the bounded snapshot must satisfy all structural invariants, removed handles must stay removed, handles keep their kind, xml_id_node never returns a removed node. Non-trivial = at least one successful structural move and a removal followed by an allocation (small-scope plan: a successful move). Distinct by hash of (start forest, executed ops). Plan 'small' enumerates every (tiny tree, operation, operand tuple)."
+        "case = start forest (documents, fragments, unattached elements, free attribute/namespace/text nodes in one Xot) + history of calls drawn from the whole mutating API with operands = any live node of any kind; after every step the bounded snapshot must satisfy all structural invariants, removed handles must stay removed, handles keep their kind, xml_id_node never returns a removed node. Non-trivial = at least one successful structural move and a removal followed by an allocation (small-scope plan: a successful move). Distinct by hash of (start forest, executed ops). Plan 'small' enumerates every (tiny tree, operation, operand tuple); plans 'small-adjacent' / 'hist-adjacent' start from forests with runs of adjacent and empty text nodes (left from a time when consolidation was off) with consolidation on again."
     }
     fn plans(&self, tier: Tier) -> Vec<Plan> {
         plans(tier, 40_000, 1_000_000)
